@@ -110,8 +110,10 @@ impl Epoch {
             days.is_finite(),
             "Attempted to initialize Epoch with non finite number"
         );
+        // The Modified Julian Date counts the days of the calendar of that time scale: the elapsed time
+        // is counted from the time scale's own reference date.
         Self {
-            duration: (days - MJD_J1900) * Unit::Day,
+            duration: (days - MJD_J1900) * Unit::Day - time_scale.gregorian_epoch_offset(),
             time_scale,
         }
     }
@@ -147,8 +149,11 @@ impl Epoch {
             days.is_finite(),
             "Attempted to initialize Epoch with non finite number"
         );
+        // The Julian Date counts the days of the calendar of that time scale: the elapsed time is counted
+        // from the time scale's own reference date.
         Self {
-            duration: (days - MJD_J1900 - MJD_OFFSET) * Unit::Day,
+            duration: (days - MJD_J1900 - MJD_OFFSET) * Unit::Day
+                - time_scale.gregorian_epoch_offset(),
             time_scale,
         }
     }
